@@ -226,6 +226,69 @@ class FamilyC09:
                 res.findings.append(Finding(
                     "impl-vs-spec", f"TimeQuery() {nm} {rhs!r} on a point in 2020: {got}, expected {want}",
                     dict(family="c09-range-end", op=nm, rhs=repr(rhs), observed=str(got), expected=str(want))))
+        # a repeated wall-clock hour as comparison value, with and without a transform in the path: comparisons are by instant
+        from zoneinfo import ZoneInfo as _ZI
+
+        wall = _dt(2021, 11, 7, 1, 30, tzinfo=_ZI("America/New_York"))
+        inst = {0: wall.replace(fold=0).astimezone(_tz.utc), 1: wall.replace(fold=1).astimezone(_tz.utc)}
+        fold_points = [tf.Point(time=inst[0]), tf.Point(time=inst[1]), tf.Point(time=inst[0] - _td(microseconds=1)),
+                       tf.Point(time=inst[1] + _td(microseconds=1))]
+
+        def same(t):
+            return t
+
+        for nm, op in (("==", _op.eq), ("!=", _op.ne), ("<", _op.lt), ("<=", _op.le), (">", _op.gt), (">=", _op.ge)):
+            for fold in (0, 1):
+                for bname, builder in (("TimeQuery()", lambda: tf.TimeQuery()), ("TimeQuery().map(identity)", lambda: tf.TimeQuery().map(same)),
+                                       ("~~TimeQuery().map(identity)", None)):
+                    try:
+                        q = op(builder(), wall.replace(fold=fold)) if builder else ~~op(tf.TimeQuery().map(same), wall.replace(fold=fold))
+                        got = [bool(q(pt)) for pt in fold_points]
+                    except Exception as e:
+                        got = "raised " + type(e).__name__
+                    want = [op(pt.time, inst[fold]) for pt in fold_points]
+                    if got != want and len(res.findings) < 20:
+                        res.findings.append(Finding(
+                            "impl-vs-spec", f"{bname} {nm} 2021-11-07 01:30 New York fold={fold} on points at both readings of that hour "
+                            f"and a microsecond outside: {got}, by instants {want}",
+                            dict(family="c09-fold-map", op=nm, fold=fold, builder=bname, observed=str(got), expected=str(want))))
+        # a query keeps its meaning when the builder it was made from is used again (another key, another transform,
+        # another test): query objects do not share state
+        def plus1(v):
+            return v + 1
+
+        def times2(v):
+            return v * 2
+
+        def upper(v):
+            return v.upper()
+
+        builders = [("FieldQuery().f.map(plus1)", lambda: tf.FieldQuery().f.map(plus1), lambda b: b == 2, [lambda b: b.map(times2), lambda b: b == 5, lambda b: b.exists()]),
+                    ("TagQuery().a.map(upper)", lambda: tf.TagQuery().a.map(upper), lambda b: b == "X", [lambda b: b.map(len), lambda b: b != "Y", lambda b: b.matches("x")]),
+                    ("TagQuery().a", lambda: tf.TagQuery().a, lambda b: b == "x", [lambda b: b.map(upper), lambda b: b.b, lambda b: b == "y"]),
+                    ("FieldQuery().f", lambda: tf.FieldQuery().f, lambda b: b > 0, [lambda b: b.map(times2), lambda b: b["g"], lambda b: b <= 0]),
+                    ("TimeQuery().map(identity)", lambda: tf.TimeQuery().map(same), lambda b: b >= V.dt_of(T0), [lambda b: b.map(same), lambda b: b < V.dt_of(T0)]),
+                    ("MeasurementQuery().map(upper)", lambda: tf.MeasurementQuery().map(upper), lambda b: b == "M1", [lambda b: b.map(len), lambda b: b != "M1"])]
+        for bname, mk, first, later in builders:
+            try:
+                b = mk()
+                q1 = first(b)
+                before = [impl_eval(tf, q1, po) for po in pobjs]
+                for f in later:
+                    try:
+                        f(b)
+                    except Exception:
+                        pass
+                after = [impl_eval(tf, q1, po) for po in pobjs]
+            except Exception as e:
+                before, after = "built", "raised " + type(e).__name__
+            if before != after and len(res.findings) < 20:
+                k = next((i for i in range(len(pobjs)) if before[i] != after[i]), 0) if isinstance(after, list) else 0
+                res.findings.append(Finding(
+                    "impl-vs-spec", f"a query made from the builder {bname} changed its answers after the builder was used again "
+                    f"(another key / transform / test): on {V.sx(U[k])} {before[k] if isinstance(before, list) else before} became "
+                    f"{after[k] if isinstance(after, list) else after}",
+                    dict(family="c09-shared-builder", builder=bname, observed=str(after)[:200], expected=str(before)[:200])))
         spec = C.run_driver("specdriver", lines)
         model = C.run_driver("modeldriver", lines) if model_ok else None
         nontriv = 0
@@ -259,7 +322,7 @@ class FamilyC09:
 
 def replay_c09(payload):
     tf = C.import_tinyflux()
-    if payload.get("family") == "c09-range-end":
+    if payload.get("family") in ("c09-range-end", "c09-fold-map", "c09-shared-builder"):
         print(payload)
         return True
     q = V.build_query(payload["query"], tf)
